@@ -265,7 +265,12 @@ def check(ctx):
     # a fixed corpus that runs first: values that compare equal but must be written differently (anything keyed by == would confuse them)
     cases = [T.UADouble(0.0), T.UADouble(-0.0), T.UAFloat(-0.0), T.UAFloat(0.0), T.UADouble(1.0), T.UADouble(1),
              T.UAListOf((T.UADouble(-0.0), T.UADouble(0.0)), "Double"), T.UAListOf((T.UAFloat(0.0), T.UAFloat(-0.0)), "Float"),
-             T.UAEURange(low=-0.0, high=0.0), T.UAEURange(low=0.0, high=-0.0)]
+             T.UAEURange(low=-0.0, high=0.0), T.UAEURange(low=0.0, high=-0.0),
+             # nested lists (depth two and three, an empty inner list), the 64-bit extremes and 2**53 + 1
+             T.UAListOf((T.UAListOf((T.UAInt32(1), T.UAInt32(2)), "Int32"), T.UAListOf((), "Int32")), "ListOfInt32"),
+             T.UAListOf((T.UAListOf((T.UAListOf((T.UAString("a"),), "String"),), "ListOfString"),), "ListOfListOfString"),
+             T.UAInt64(9223372036854775807), T.UAInt64(-9223372036854775808), T.UAUInt64(18446744073709551615), T.UAInt64(9007199254740993),
+             T.UAListOf((T.UAUInt64(18446744073709551615), T.UAUInt64(9007199254740993)), "UInt64")]
     n_corpus = len(cases)
     n = 250 if ctx.quick() else 6000
     for _ in range(n):
